@@ -82,6 +82,13 @@ type PublishNotificationData struct {
 // from the client and the server.
 func (s *Subscription) Cancel(ctx context.Context) error {
 	stats.Subscription().Add("Cancel", 1)
+
+	// a subscription which is waiting to be recreated after a
+	// reconnect does not exist on the server
+	if c, ok := s.c.(*Client); ok && c.forgetStaleSubscription(s) {
+		return nil
+	}
+
 	s.c.ForgetSubscription(ctx, s.SubscriptionID)
 	return s.delete(ctx)
 }
@@ -478,11 +485,19 @@ func (s *Subscription) recreate_monitoredItems(ctx context.Context) error {
 	// Sort by timestamp to return
 	itemsByTimestamps := make(map[ua.TimestampsToReturn][]*ua.MonitoredItemCreateRequest)
 	s.itemsMu.Lock()
+	prevItems := s.items
 	for _, mi := range s.items {
 		itemsByTimestamps[mi.ts] = append(itemsByTimestamps[mi.ts], mi.req)
 	}
 	s.items = make(map[uint32]*monitoredItem, len(s.items))
 	s.itemsMu.Unlock()
+
+	// keep the items for the next attempt when they cannot be created
+	restore := func() {
+		s.itemsMu.Lock()
+		s.items = prevItems
+		s.itemsMu.Unlock()
+	}
 
 	for ts, items := range itemsByTimestamps {
 		req := &ua.CreateMonitoredItemsRequest{
@@ -497,14 +512,17 @@ func (s *Subscription) recreate_monitoredItems(ctx context.Context) error {
 		})
 		if err != nil {
 			dlog.Printf("failed to create monitored items: %v", err)
+			restore()
 			return err
 		}
 
 		if len(res.Results) != len(items) {
+			restore()
 			return ua.StatusBadUnknownResponse
 		}
 		for _, result := range res.Results {
 			if status := result.StatusCode; status != ua.StatusOK {
+				restore()
 				return status
 			}
 		}
